@@ -104,6 +104,19 @@ RemoveRemote(n) ==
     /\ fresh' = fresh
     /\ last' = [op |-> "RemoveRemote", args |-> [n |-> n], ret |-> [r |-> "ok"]]
 
+\* remove_remote handed a stale form of a current identifier (same text, but the SPProvidedID it carried
+\* before a manage-name-id request): the code refuses it (list.remove raises) and changes nothing.  The
+\* property allows refusing it or withdrawing the identifier; never one index without the other.
+RemoveRemoteStale(m) ==
+    /\ m \notin Current /\ \E n \in Current : n.tok = m.tok
+    /\ LET n == CHOOSE x \in Current : x.tok = m.tok
+           u == Owner(n) IN
+       \/ Answer("RemoveRemoteStale", [n |-> m], [r |-> "any"])
+       \/ /\ fwd' = [fwd EXCEPT ![u] = Remove(@, n)]
+          /\ rev' = [rev EXCEPT ![n.tok] = NoUser]
+          /\ fresh' = fresh
+          /\ last' = [op |-> "RemoveRemoteStale", args |-> [n |-> m], ret |-> [r |-> "any"]]
+
 \* operations handed an identifier that was never issued: anything may be answered, nothing changes
 Unknown(opname) == Answer(opname, [n |-> Rec(0, "persistent", CHOOSE s \in SPq : TRUE, DbNQ, "")], [r |-> "any"])
 
@@ -142,6 +155,7 @@ Next ==
     \/ \E t \in 0..MaxTok : FindLocal(t)
     \/ \E u \in User, s \in SPq \cup {""}, f \in Fmts \cup {""} : FindNameid(u, s, f)
     \/ \E n \in Current : RemoveRemote(n)
+    \/ \E n \in Current, p \in SPIDs \cup {""} : RemoveRemoteStale([n EXCEPT !.spid = p])
     \/ \E n \in Current, p \in SPIDs \cup {""} : Manage(n, p)
     \* "" = a NameIDPolicy without SPNameQualifier: matches (or creates) an identifier that has none
     \/ \E n \in Current, f \in Fmts, s \in SPq \cup {""}, a \in BOOLEAN : Mapping(n, f, s, a)
